@@ -252,6 +252,8 @@ class Engine(_Base, ExprMixin, CallMixin, StmtMixin):
                                key='%s:%s' % (info.module.name, info.cls.qualname))
                 continue
             if ty is None:
+                ty = getattr(self.reg, 'param_defaults', {}).get(n)    # conventional parameter names (robustness to added parameters)
+            if ty is None:
                 raise Unsupported('no declared type for parameter %s of %s' % (n, c.target))
             if isinstance(ty, Val):
                 env[n] = ty
